@@ -12,6 +12,6 @@ git apply SEEDED/$X.diff || { echo "PATCH DOES NOT APPLY"; exit 2; }
 echo "== demo WITH change (expect FAILED)"
 CARGO_NET_OFFLINE=true cargo test -p garnish_lang_tests --offline --test seeded_demo_$X 2>&1 | grep -E "^test result|error(\[|:)" | head -3
 echo "== pinned suite WITH change (expect 1500 of 1500)"
-rm -f tests/tests/seeded_demo_a.rs tests/tests/seeded_demo_b.rs
+rm -f tests/tests/seeded_demo_*.rs
 python3 /verif/lib/baseline.py "$WT" | tail -3
 git checkout -q -- .
